@@ -286,7 +286,7 @@ func c14generated(c *core.Ctx, r *rand.Rand) {
 
 func runC14(c *core.Ctx, i int) {
 	r := c.Rand(i, 0)
-	n := c.Pick(400, 8000)
+	n := c.Pick(1200, 16000)
 	for k := 0; k < n; k++ {
 		c14doc(c, r)
 		if k%3 == 0 {
